@@ -23,7 +23,9 @@
 EXTENDS Integers, Sequences, FiniteSets, TLC, Json
 
 CONSTANTS Ls, Starts, Ends, Sizes, Orphans, Overlaps,   \* parameter sets of the bounded model
-          NavDir                                         \* "none" | "next" | "prev": which links a reader follows
+          NavDir,                                        \* "none" | "next" | "prev": which links a reader follows;
+                                                         \* "plain": the unbatched dtml-in (renderwob)
+          PrevBatches                                    \* TRUE: the body evaluates previous-batches
 
 Unlimited == -1
 Undef == -9                     \* "variable not defined" in a row
@@ -120,7 +122,7 @@ Probe0 ==
     /\ UNCHANGED <<par, win, lens, idx, pinfo, ninfo, rows, hist>>
 
 Window ==
-    /\ pc = "window"
+    /\ pc = "window" /\ NavDir # "plain"
     /\ LET o  == Opt(par.L, pulled, par.start, par.end, par.size, par.orphan)
            \* try: sequence[end - 1] except IndexError: end = len(sequence)
            e  == IF Has(par.L, o.e - 1) THEN o.e ELSE par.L
@@ -137,7 +139,7 @@ PrevOpt(p) == Opt(par.L, p, 0, (win.s - 1) + par.overlap, win.z, par.orphan)
 NextOpt(p) == Opt(par.L, p, win.e + 1 - par.overlap, 0, win.z, par.orphan)
 
 Item ==
-    /\ pc = "items"
+    /\ pc = "items" /\ NavDir # "plain"
     /\ LET first == win.s - 1
            last  == win.e - 1
            edge  == idx = first \/ idx = last
@@ -149,7 +151,11 @@ Item ==
            no    == NextOpt(p2)
            p3    == IF edge /\ more THEN no.p ELSE p2
            ni    == IF edge /\ more THEN [f |-> 1, s |-> no.s, e |-> no.e] ELSE ninfo
-           p4    == PullTo(par.L, p3, idx)              \* client = sequence[index]
+           p4a   == PullTo(par.L, p3, idx)              \* client = sequence[index]
+           \* previous_batches(): while start > 1: opt(0, start-1+overlap, sz, orphan, seq); its first
+           \* probe is the farthest.  Only computed where previous-sequence is true.
+           p4    == IF PrevBatches /\ idx = first /\ first > 0
+                    THEN PullTo(par.L, p4a, (win.s - 1 + par.overlap) - 1) ELSE p4a
            row   == [n    |-> idx + 1,
                      prev |-> IF idx = first /\ first > 0 THEN 1 ELSE 0,
                      next |-> IF idx = last /\ more THEN 1 ELSE 0,
@@ -166,6 +172,28 @@ Item ==
              ELSE /\ idx' = idx + 1
                   /\ pc' = IF idx + 1 < win.e THEN "items" ELSE "finish"
     /\ UNCHANGED <<par, win, lens, empty, hist>>
+
+\* renderwob: the unbatched loop.  l_ = len(sequence) exhausts a lazy sequence first (an unbounded
+\* one never gets past it: `lens` counts that call), then every element is fetched once, in order.
+PlainLen ==
+    /\ NavDir = "plain" /\ pc = "window"
+    /\ lens' = IF par.L = Unlimited THEN lens + 1 ELSE lens
+    /\ pulled' = LenPulls(par.L, pulled)
+    /\ win' = [s |-> 1, e |-> par.L, z |-> par.L]
+    /\ idx' = 0
+    /\ pc' = IF par.L = Unlimited THEN "done" ELSE "items"
+    /\ UNCHANGED <<par, pinfo, ninfo, rows, empty, hist>>
+
+PlainItem ==
+    /\ NavDir = "plain" /\ pc = "items"
+    /\ rows' = Append(rows, [n |-> idx + 1, prev |-> 0, next |-> 0, ps |-> Undef, pe |-> Undef,
+                             ns |-> Undef, ne |-> Undef,
+                             st |-> IF idx = 0 THEN 1 ELSE 0,
+                             en |-> IF idx = par.L - 1 THEN 1 ELSE 0,
+                             ok |-> TRUE, p |-> pulled])
+    /\ idx' = idx + 1
+    /\ pc' = IF idx + 1 < par.L THEN "items" ELSE "finish"
+    /\ UNCHANGED <<par, win, pulled, lens, pinfo, ninfo, empty, hist>>
 
 Finish ==
     /\ pc = "finish"
@@ -198,7 +226,7 @@ FollowPrev ==
           /\ pulled' = 0 /\ lens' = 0 /\ idx' = 0 /\ pinfo' = NoInfo /\ ninfo' = NoInfo
           /\ rows' = <<>> /\ empty' = FALSE
 
-Next == Probe0 \/ Window \/ Item \/ Finish \/ FollowNext \/ FollowPrev
+Next == Probe0 \/ Window \/ Item \/ PlainLen \/ PlainItem \/ Finish \/ FollowNext \/ FollowPrev
 
 Spec == Init /\ [][Next]_vars
 
@@ -310,15 +338,32 @@ NavProgress == [][FollowNext => (par.overlap < EffSize(par.start, par.end, par.s
 
 PullBound(p, w) == w.e + w.z + p.orphan
 
-C_Lazy(p, o, w) == (~o.empty /\ ~o.crashed) =>
+\* Known finding F19: the look-ahead for the *previous* batch, opt(0, first+overlap, ...), probes
+\* element start-1+overlap.  For overlap > (window length) + size + orphan that lies beyond the
+\* bound of the property.  The machine follows the code; its own invariant is therefore stated
+\* with the relaxed bound, and the strict clause C_Lazy is evaluated on recorded observations.
+PrevReach(p, w) == IF w.s > 1 THEN w.s - 1 + p.overlap ELSE 0
+RelaxedBound(p, w) == Max(PullBound(p, w), PrevReach(p, w))
+
+LazyWith(p, o, bound) == (~o.empty /\ ~o.crashed) =>
                      /\ o.lens = 0
-                     /\ o.pulled <= PullBound(p, w)
-                     /\ \A i \in 1..Len(o.rows) : o.rows[i].p <= PullBound(p, w)
+                     /\ o.pulled <= bound
+                     /\ \A i \in 1..Len(o.rows) : o.rows[i].p <= bound
                      /\ \A i \in 1..Len(o.rows) - 1 : o.rows[i].p <= o.rows[i + 1].p
 
+C_Lazy(p, o, w)        == LazyWith(p, o, PullBound(p, w))
+C_LazyRelaxed(p, o, w) == LazyWith(p, o, RelaxedBound(p, w))
+
 InvLazy     == (pc \in {"items", "finish", "done"} /\ win.s # Undef /\ ~empty) =>
-                   pulled <= PullBound(par, win) /\ lens = 0
+                   pulled <= RelaxedBound(par, win) /\ lens = 0
+StrictOK    == (pc = "done" /\ ~empty /\ win.s # Undef) => pulled <= PullBound(par, win)
 InvEmptyOne == (pc = "done" /\ empty) => pulled = 0
+\* unbatched: every element pulled exactly once and rendered once, in order
+C_PlainAll(p, o) == (~o.empty /\ ~o.crashed /\ p.L # Unlimited) =>
+                      /\ o.pulled = p.L /\ Len(o.rows) = p.L
+                      /\ \A i \in 1..Len(o.rows) : o.rows[i].n = i
+InvPlainAll == (pc = "done" /\ NavDir = "plain") => C_PlainAll(par, Obs)
+InvLazyB    == NavDir # "plain" => InvLazy
 \* pulls only ever grow (elements are never produced twice)
 PullMonotone == [][(pc' # "probe0") => pulled' >= pulled]_vars
 \* every behaviour of a single request terminates: the variant (end - idx) decreases
@@ -331,9 +376,9 @@ ParT(p) == <<p.L, p.start, p.end, p.size, p.orphan, p.overlap>>
 RowT(r) == <<r.n, r.prev, r.next, r.ps, r.pe, r.ns, r.ne, r.st, r.en, r.p>>
 B(b) == IF b THEN 1 ELSE 0
 
-Export == (pc = "done" /\ NavDir = "none") =>
+Export == (pc = "done" /\ NavDir \in {"none", "plain"}) =>
              PrintT(ToJson(<<ParT(par), B(empty), B(Crashed),
-                             [i \in 1..Len(rows) |-> RowT(rows[i])], pulled>>))
+                             [i \in 1..Len(rows) |-> RowT(rows[i])], pulled, B(StrictOK)>>))
 
 NavTerminal == pc = "done" /\ (empty \/ Crashed \/ par.overlap >= win.z \/
                                (NavDir = "next" /\ rows[Len(rows)].next = 0) \/
